@@ -2,6 +2,7 @@
   C18 — transactions on the listener side are atomic and isolated until discharge.
 -/
 import Amqp.Txn
+import Theorems.TxnRoute
 
 namespace Amqp.Txn
 open Amqp.Gen.Txn Amqp.Gen.TxnK
